@@ -144,6 +144,12 @@ pub fn judge(edge: &Value, prop: &str) -> Verdict {
     if unsupported {
         return Verdict::skip();
     }
+    // values a self-describing text format cannot carry (NaN) make serde itself fail: outside every
+    // property's domain except that C16 reports a failing round trip of representable data
+    let serde_failed = steps.iter().any(|s| s.result.as_ref().map(|r| r.get("serde_error").is_some()).unwrap_or(false));
+    if serde_failed && prop != "C16" {
+        return Verdict::skip();
+    }
 
     match prop {
         // ------------------------------------------------------------------ C01 round trip
@@ -390,6 +396,11 @@ pub fn judge(edge: &Value, prop: &str) -> Verdict {
         }
         // ------------------------------------------------------------------ C11 collapse
         "C11" => {
+            // "otherwise it stores the item and returns an index": a push that panics does neither
+            if let Some((i, m)) = first_push_panic(path, &steps) {
+                v.fail("push-panicked", json!({"step": i, "msg": m}));
+                return v;
+            }
             if any_panic(&steps).is_some() {
                 return Verdict::skip();
             }
